@@ -1,5 +1,7 @@
 import TrionModel.Lemmas.AsmXferRun
 import TrionModel.Props.C05Multi2
+import TrionModel.Props.C01
+import TrionModel.Props.C05AsmFull
 /-!
 # C05 (pipeline clause, projects with `.include`, `.global`, `.export`, `.import`) — stage 3, partial
 
@@ -36,14 +38,25 @@ namespace Trion.Asm
 open Trion Trion.SegLayout Trion.Asm.Multi Trion.Asm.Glob Trion.Asm.Xfer
 open Trion.Layout (MRun withTasks)
 
-/-- C05 (pipeline, program level, `.include` + `.global` + `.export` + `.import` of valued names) -/
-theorem layout_refines_asm_scope_partial {num : Nat → Bytes → Nat} (hinj : NumInj num) (fs : Bytes → Option Bytes)
+/-- C05 (pipeline, program level, STRONG form, `.include` + `.global` + `.export` + `.import` of valued names).  The
+conclusion of `layout_refines_asm_scope_partial` with three additions that make "no placeholder survives" and "the bytes are
+the encodings" part of the STATEMENT:
+* the flattening is `XFlatS`: every ordinary source statement is GENUINE over its file's final table (`ElGen`): for an
+  instruction the fresh assembly `Front.assemble ⟨c, tpl, 0, args⟩ (frontEval t) true` completes and `encoder` accepts the
+  instruction (`InstrGen`; then `instrFinal` IS that encoding, `InstrGen.final`, and `encoder_ok_encode` gives
+  `Codec.encode i = .ok hws` with bytes `toBytes hws`); for `.du*` the operand evaluates to `v` with `0 ≤ v ≤ max` and the
+  bytes are `leBytes size v` (`DuGen.final`); `.dhex/.dstr/.dfile` carry the decoded / literal / file bytes; `.addr/.align/
+  .const` operands evaluate (`.align n` with `0 < n < 2^32`, so its reference bytes are 0xBE × (next multiple − cursor));
+* `E` is pinned WITHOUT `NoLabelAtTop`: it is the symbol table `la.env` of the layout core's own execution `MRun {} … la` of
+  the flattened program; * the main file's final table has no unvalued entry (`Table.NoDef t`). -/
+theorem layout_refines_asm_scope_strong {num : Nat → Bytes → Nat} (hinj : NumInj num) (fs : Bytes → Option Bytes)
     (main data : Bytes) (hfs : fs main = some data) (hglob : XferProject fs maxDepth [] main data) (o : Outcome)
     (h : run fs main = .done o) (hs : o.success = true) :
     ∃ (els : List Element) (perr : Option ParseErr) (p : List Layout.Stmt) (E : Layout.Env) (t : Table) (n : Nat)
-      (A : List (Bytes × Int)) (im' : Layout.Img),
+      (A : List (Bytes × Int)) (im' : Layout.Img) (la : Layout.State),
       parseFile data = .ok (els, perr) ∧
-      EnvRel (num 1) t E ∧ XFlat num fs encoder E 0 1 main t 2 none els p n ∧
+      EnvRel (num 1) t E ∧ Table.NoDef t ∧ XFlatS num fs encoder E 0 1 main t 2 none els p n ∧
+      MRun ({} : Layout.State) (p ++ aliases (num 0) (num 1) A) la ∧ la.env = E ∧
       A.map Prod.fst = els.filterMap pubName ∧ (∀ xv ∈ A, t.val xv.1 = some xv.2) ∧
       EnvRel (num 0) (pub [] A) E ∧
       (∀ s ∈ p ++ aliases (num 0) (num 1) A, s.wf = true) ∧
@@ -109,7 +122,7 @@ theorem layout_refines_asm_scope_partial {num : Nat → Bytes → Nat} (hinj : N
               exact List.eq_nil_of_length_eq_zero (by simpa using this)
             have herr4 : st4.errors = [] := by rw [← herrs]; exact herr0
             -- the main file against the layout core
-            obtain ⟨els, perr, tt, p, l3, l4, A, id', hparse, _, _, hm, hrt, g4, e1, _, e2, _, _, _, hwf, hAn, hAv, hal⟩ :=
+            obtain ⟨els, perr, tt, p, l3, l4, A, id', hparse, _, _, hm, hrt, g4, e1, _, e2, _, _, _, hwf, hAn, hAv, hal, hndt⟩ :=
               Xfer.fileBody_sim (num := num) hinj henc fs (assembleFile fs encoder 63) (XferProject fs 63)
                 (Xfer.assembleFile_sim hinj henc fs 63) hinc (assembleFile_grew fs encoder 63) (assembleFile_rel fs encoder 63)
                 ⟨[main], main⟩ main [] rfl data 0 1 (by omega) st2 st4 res4 {} [] hglob good_st2 ⟨fun _ => rfl, rfl⟩ rfl rfl rfl
@@ -148,12 +161,33 @@ theorem layout_refines_asm_scope_partial {num : Nat → Bytes → Nat} (hinj : N
               simp only [List.append_nil, Layout.Ref.pass2] at this
               exact this
             obtain ⟨hE, hF⟩ := a6 la.env (fun _ _ _ _ => rfl)
-            refine ⟨els, perr, p, la.env, tt, id', A, im', hparse, hE, hF, hAn, hAv, fun m => by rw [a4 m, e1.val m]; rfl, hwfall, hp2, himg, hpl,
-              fun hl => ?_⟩
+            refine ⟨els, perr, p, la.env, tt, id', A, im', la, hparse, hE, hndt, hF, hwhole, rfl, hAn, hAv,
+              fun m => by rw [a4 m, e1.val m]; rfl, hwfall, hp2, himg, hpl, fun hl => ?_⟩
             have := p1 hl []
             simp only [List.append_nil, Layout.Ref.pass1] at this
             exact this
 
+
+/-- C05 (pipeline, program level, `.include` + `.global` + `.export` + `.import` of valued names) -/
+theorem layout_refines_asm_scope_partial {num : Nat → Bytes → Nat} (hinj : NumInj num) (fs : Bytes → Option Bytes)
+    (main data : Bytes) (hfs : fs main = some data) (hglob : XferProject fs maxDepth [] main data) (o : Outcome)
+    (h : run fs main = .done o) (hs : o.success = true) :
+    ∃ (els : List Element) (perr : Option ParseErr) (p : List Layout.Stmt) (E : Layout.Env) (t : Table) (n : Nat)
+      (A : List (Bytes × Int)) (im' : Layout.Img),
+      parseFile data = .ok (els, perr) ∧
+      EnvRel (num 1) t E ∧ XFlat num fs encoder E 0 1 main t 2 none els p n ∧
+      A.map Prod.fst = els.filterMap pubName ∧ (∀ xv ∈ A, t.val xv.1 = some xv.2) ∧
+      EnvRel (num 0) (pub [] A) E ∧
+      (∀ s ∈ p ++ aliases (num 0) (num 1) A, s.wf = true) ∧
+      Layout.Ref.pass2 none [] (p ++ aliases (num 0) (num 1) A) = some im' ∧ (∀ a, Map.abs o.image a = im'.get a) ∧
+      (∀ q s r, p ++ aliases (num 0) (num 1) A = q ++ s :: r → s.emits = true →
+        ∃ x, Layout.Ref.cursorAfter none q = some x ∧
+          ∀ i, i < (Layout.Ref.bytes x s).length → im'.get (x + i) = (Layout.Ref.bytes x s)[i]?) ∧
+      (Layout.NoLabelAtTop (p ++ aliases (num 0) (num 1) A) →
+        Layout.Ref.pass1 none [] (p ++ aliases (num 0) (num 1) A) = some E) := by
+  obtain ⟨els, perr, p, E, t, n, A, im', la, h1, h2, _, h3, _, _, h4, h5, h6, h7, h8, h9, h10, h11⟩ :=
+    layout_refines_asm_scope_strong hinj fs main data hfs hglob o h hs
+  exact ⟨els, perr, p, E, t, n, A, im', h1, h2, h3.toXFlat, h4, h5, h6, h7, h8, h9, h10, h11⟩
 
 /-- C05 (every statement's bytes at its address) and C08 (pipeline clause: above, below, or IN ANOTHER FILE) for projects with
 `.include/.global/.export/.import`.  In the image of a successful run every emitting statement `s` of the flattened
@@ -187,6 +221,186 @@ theorem every_statement_placed_asm_scope_partial {num : Nat → Bytes → Nat} (
     · simp only [aliases, List.mem_map] at hm
       obtain ⟨xv, _, rfl⟩ := hm
       cases hse
+
+/-- what `encoder` accepts: the instruction has an ARMv6-M encoding `hws` (`Codec.encode`, C01) and the bytes are its
+little-endian halfwords -/
+theorem encoder_ok_encode {i : Instr} {b : Bytes} (h : encoder i = .ok b) :
+    ∃ hws, Codec.encode i = .ok hws ∧ b = (Codec.toBytes hws).map (·.toUInt8) := by
+  unfold encoder at h
+  cases hi : Codec.encodeInto 4 i with
+  | error e => rw [hi] at h; cases e <;> cases h
+  | ok bs =>
+    rw [hi] at h
+    simp only [Except.ok.injEq] at h
+    unfold Codec.encodeInto at hi
+    cases he : Codec.encode i with
+    | error e => rw [he] at hi; cases hi
+    | ok hws =>
+      rw [he] at hi
+      simp only at hi
+      split at hi
+      · cases hi
+      · cases hi
+        exact ⟨hws, rfl, h.symm⟩
+
+/-- … and, for a well-formed instruction, decoding the halfwords gives the instruction back (C01) -/
+theorem encoder_ok_decode {i : Instr} {b : Bytes} (h : encoder i = .ok b) (wf : i.wf) :
+    ∃ hws, Codec.encode i = .ok hws ∧ b = (Codec.toBytes hws).map (·.toUInt8) ∧ Arm.decode hws = some i := by
+  obtain ⟨hws, h1, h2⟩ := encoder_ok_encode h
+  exact ⟨hws, h1, h2, Codec.enc_sound i hws h1 wf⟩
+
+/-- C05 (no placeholder survives; the bytes ARE the encodings — STRONG form of `every_statement_placed_asm_scope_partial`).
+Every emitting statement `s` of the flattened program stands with its reference bytes at its reference address, `s` is the
+abstraction of an ordinary source statement `el` of a file instance over that instance's final table `t'`, AND `el` is
+genuine over `t'` (`ElGen`): the reference bytes are the encoder's output for the completed fresh assembly / the
+little-endian value in range / the literal bytes — never the 0xBE fallback of `instrFinal` / `duFinal`. -/
+theorem every_statement_placed_asm_scope_strong {num : Nat → Bytes → Nat} (hinj : NumInj num) (fs : Bytes → Option Bytes)
+    (main data : Bytes) (hfs : fs main = some data) (hglob : XferProject fs maxDepth [] main data) (o : Outcome)
+    (h : run fs main = .done o) (hs : o.success = true) :
+    ∃ (els : List Element) (perr : Option ParseErr) (p : List Layout.Stmt) (E : Layout.Env) (t : Table) (n : Nat)
+      (A : List (Bytes × Int)),
+      parseFile data = .ok (els, perr) ∧ EnvRel (num 1) t E ∧ XFlatS num fs encoder E 0 1 main t 2 none els p n ∧
+      ∀ q s r, p ++ aliases (num 0) (num 1) A = q ++ s :: r → s.emits = true →
+        (∃ c, Layout.Ref.cursorAfter none q = some c ∧
+          ∀ i, i < (Layout.Ref.bytes c s).length → Map.abs o.image (c + i) = (Layout.Ref.bytes c s)[i]?) ∧
+        ∃ id' path' t' c' el, EnvRel (num id') t' E ∧ isInclude el = false ∧ ElGen fs encoder path' t' c' el ∧
+          s = absStmt (num id') fs encoder path' t' c' el := by
+  obtain ⟨els, perr, p, E, t, n, A, im', la, h1, h2, _, h3, _, _, _, _, _, _, _, h9, h10, _⟩ :=
+    layout_refines_asm_scope_strong hinj fs main data hfs hglob o h hs
+  refine ⟨els, perr, p, E, t, n, A, h1, h2, h3, fun q s r hp hse => ⟨?_, ?_⟩⟩
+  · obtain ⟨x, hx, hb⟩ := h10 q s r hp hse
+    exact ⟨x, hx, fun i hi => by rw [h9]; exact hb i hi⟩
+  · have hmem : s ∈ p ++ aliases (num 0) (num 1) A := by rw [hp]; simp
+    rcases List.mem_append.mp hmem with hm | hm
+    · rcases h3.source h2 s hm with hsrc | ⟨n', d, v, rfl⟩
+      · exact hsrc
+      · cases hse
+    · simp only [aliases, List.mem_map] at hm
+      obtain ⟨xv, _, rfl⟩ := hm
+      cases hse
+
+/-- C05 (a label / constant has ONE value) at the pipeline level.  In a successful run there is one symbol table `E` for the
+whole project such that every ordinary statement of every file instance `id'` — wherever it stands: before or after the
+definition of the names it uses, before or after an `.include`, in whichever file of the tree — is assembled over a table
+`t'` that gives every name `x` exactly the value `E (num id' x)`; and (strong form) the statement's bytes are genuinely
+the bytes it denotes over that table.  (The Layout-level theorems `forward_equals_backward`, `const_position_irrelevant`,
+… of Props/C05.lean are about `Layout.Stmt`, where the final value is an INPUT; this is the statement that carries the
+clause for the implementation's pipeline.) -/
+theorem label_value_position_independent_asm {num : Nat → Bytes → Nat} (hinj : NumInj num) (fs : Bytes → Option Bytes)
+    (main data : Bytes) (hfs : fs main = some data) (hglob : XferProject fs maxDepth [] main data) (o : Outcome)
+    (h : run fs main = .done o) (hs : o.success = true) :
+    ∃ (els : List Element) (perr : Option ParseErr) (p : List Layout.Stmt) (E : Layout.Env) (t : Table) (n : Nat),
+      parseFile data = .ok (els, perr) ∧ XFlatS num fs encoder E 0 1 main t 2 none els p n ∧
+      ∀ s ∈ p, (∃ id' path' t' c' el, s = absStmt (num id') fs encoder path' t' c' el ∧ isInclude el = false ∧
+          ElGen fs encoder path' t' c' el ∧ ∀ x, t'.val x = E.get (num id' x)) ∨
+        (∃ n d v, s = .const n [d] v) := by
+  obtain ⟨els, perr, p, E, t, n, A, im', la, h1, h2, _, h3, _⟩ :=
+    layout_refines_asm_scope_strong hinj fs main data hfs hglob o h hs
+  refine ⟨els, perr, p, E, t, n, h1, h3, fun s hs' => ?_⟩
+  rcases h3.source h2 s hs' with ⟨id', path', t', c', el, g1, g2, g3, g4⟩ | hal
+  · exact .inl ⟨id', path', t', c', el, g4, g2, g3, fun x => (g1 x).symm⟩
+  · exact .inr hal
+
+/-! ### the single-file theorems in strong form -/
+
+/-- every statement of a single file is genuine over the table `t` (the reference cursor threaded as in `abstract`) -/
+def AllGen (num : Bytes → Nat) (fs : Bytes → Option Bytes) (enc : Encoder) (path : Bytes) (t : Table) :
+    Option Nat → List Element → Prop
+  | _, [] => True
+  | c, el :: els => ElGen fs enc path t c el ∧
+      AllGen num fs enc path t (Layout.Ref.next c (absStmt num fs enc path t c el)) els
+
+theorem okEl_not4 {el : Element} (h : okEl el = true) :
+    isInclude el = false ∧ isGlobal el = false ∧ isExport el = false ∧ isImport el = false := by
+  obtain ⟨line, col, val⟩ := el
+  cases val with
+  | label n => exact ⟨rfl, rfl, rfl, rfl⟩
+  | instruction n a => exact ⟨rfl, rfl, rfl, rfl⟩
+  | directive name args =>
+    simp only [okEl, Bool.not_eq_true', Bool.or_eq_false_iff, decide_eq_false_iff_not] at h
+    simp only [isInclude, isGlobal, isExport, isImport, decide_eq_false_iff_not]
+    exact ⟨h.1.1.1, h.1.1.2, h.2, h.1.2⟩
+
+theorem Xfer.XFlatS.single {num : Nat → Bytes → Nat} {fs : Bytes → Option Bytes} {enc : Encoder} {E : Layout.Env} {pid id : Nat}
+    {path : Bytes} {t : Table} {nxt : Nat} {c : Option Nat} {els : List Element} {p : List Layout.Stmt} {nxt' : Nat}
+    (h : XFlatS num fs enc E pid id path t nxt c els p nxt') (hok : ∀ el ∈ els, okEl el = true) :
+    p = abstract (num id) fs enc path t c els ∧ AllGen (num id) fs enc path t c els := by
+  induction h with
+  | nil => exact ⟨rfl, trivial⟩
+  | stmt _ _ _ _ hg _ ih =>
+    obtain ⟨e1, e2⟩ := ih (fun x hx => hok x (List.mem_cons_of_mem _ hx))
+    exact ⟨by simp only [abstract, e1], hg, e2⟩
+  | @pubs _ _ _ _ _ _ el _ _ _ hp _ _ =>
+    have := okEl_not4 (hok el List.mem_cons_self)
+    rcases hp with hp | hp
+    · rw [this.2.1] at hp; cases hp
+    · rw [this.2.2.1] at hp; cases hp
+  | @imp _ _ _ _ _ _ el _ _ _ _ _ hi _ _ _ =>
+    have := okEl_not4 (hok el List.mem_cons_self)
+    rw [importName_none this.2.2.2] at hi; cases hi
+  | @inc _ _ _ _ _ _ el _ _ _ _ _ _ _ _ _ _ _ ht _ _ _ _ _ _ _ _ =>
+    have := okEl_not4 (hok el List.mem_cons_self)
+    rw [incTarget_none this.1] at ht; cases ht
+
+theorem elsOk_of_okEl (fs : Bytes → Option Bytes) (path : Bytes) (proj : List Bytes → Bytes → Bytes → Prop) (avail : List Bytes) :
+    ∀ (els : List Element) (seen : List Bytes), (∀ el ∈ els, okEl el = true) → ElsOk fs path proj avail seen els := by
+  intro els
+  induction els with
+  | nil => intro _ _; trivial
+  | cons el els ih =>
+    intro seen hok
+    have h4 := okEl_not4 (hok el List.mem_cons_self)
+    refine ⟨fun hg => (by rw [h4.2.1] at hg; cases hg), fun hm => (by rw [h4.2.2.2] at hm; cases hm),
+      fun p' d' ht => (by rw [incTarget_none h4.1] at ht; cases ht), ih _ (fun x hx => hok x (List.mem_cons_of_mem _ hx))⟩
+
+theorem filterMap_pubName_nil : ∀ (els : List Element), (∀ el ∈ els, okEl el = true) → els.filterMap pubName = []
+  | [], _ => rfl
+  | el :: els, h => by
+    have h4 := okEl_not4 (h el List.mem_cons_self)
+    simp only [List.filterMap_cons, pubName, globalName_none h4.2.1, exportName_none h4.2.2.1]
+    exact filterMap_pubName_nil els (fun x hx => h x (List.mem_cons_of_mem _ hx))
+
+/-- C05 (pipeline, ONE file, STRONG form of `layout_refines_asm_full` / `every_statement_placed_asm_full`).  For a single-file
+project (`SingleFileFull`) and any jointly injective numbering (`num 1` numbers the file's names): a successful run has a
+final table `t₂` with no unvalued entry, `abstract (num 1) … t₂ none els` is executed by the layout core (`Layout.steps`)
+into a state whose symbol table IS `t₂` (`EnvRel`, unconditionally — also when a label stands at the cursor 2^32, where
+`Ref.pass1` is undefined), EVERY statement is genuine over `t₂` (`AllGen`: the fresh assembly completes and is encoded, every
+`.du*` value is in range, …, so no reference byte is a fallback), the image is the `pass2` image with every emitting
+statement's bytes at its address, and under `NoLabelAtTop` the reference's pass-1 table is that symbol table. -/
+theorem layout_refines_asm_full_strong {num : Nat → Bytes → Nat} (hinj : NumInj num) (fs : Bytes → Option Bytes)
+    (main data : Bytes) (hfs : fs main = some data) (els : List Element) (perr : Option ParseErr)
+    (hparse : parseFile data = .ok (els, perr)) (hsf : SingleFileFull els) (o : Outcome) (h : run fs main = .done o)
+    (hs : o.success = true) :
+    ∃ (t₂ : Table) (E : Layout.Env) (la : Layout.State) (im' : Layout.Img),
+      Table.NoDef t₂ ∧ EnvRel (num 1) t₂ E ∧ AllGen (num 1) fs encoder main t₂ none els ∧
+      MRun ({} : Layout.State) (abstract (num 1) fs encoder main t₂ none els) la ∧ la.env = E ∧
+      Layout.Ref.pass2 none [] (abstract (num 1) fs encoder main t₂ none els) = some im' ∧
+      (∀ a, Map.abs o.image a = im'.get a) ∧
+      (∀ q s r, abstract (num 1) fs encoder main t₂ none els = q ++ s :: r → s.emits = true →
+        ∃ x, Layout.Ref.cursorAfter none q = some x ∧
+          ∀ i, i < (Layout.Ref.bytes x s).length → Map.abs o.image (x + i) = (Layout.Ref.bytes x s)[i]?) ∧
+      (Layout.NoLabelAtTop (abstract (num 1) fs encoder main t₂ none els) →
+        Layout.Ref.pass1 none [] (abstract (num 1) fs encoder main t₂ none els) = some E) := by
+  have hproj : XferProject fs maxDepth [] main data := by
+    have hmd : maxDepth = 63 + 1 := rfl
+    rw [hmd]
+    intro els' perr' hp'
+    rw [hparse] at hp'; cases hp'
+    exact elsOk_of_okEl fs main _ [] els [] hsf
+  obtain ⟨els', perr', p, E, t, n, A, im', la, h1, h2, hnd, h3, hrun, hla, h4, _, _, _, h8, h9, h10, h11⟩ :=
+    layout_refines_asm_scope_strong hinj fs main data hfs hproj o h hs
+  rw [hparse] at h1; cases h1
+  have hA : A = [] := by
+    have := h4; rw [filterMap_pubName_nil els hsf] at this
+    exact List.map_eq_nil_iff.mp this
+  subst hA
+  obtain ⟨hp, hgen⟩ := h3.single hsf
+  simp only [aliases, List.map_nil, List.append_nil] at hrun h8 h10 h11
+  subst hp
+  exact ⟨t, E, la, im', hnd, h2, hgen, hrun, hla, h8, h9,
+    fun q s r hq hse => by
+      obtain ⟨x, hx, hb⟩ := h10 q s r hq hse
+      exact ⟨x, hx, fun i hi => by rw [h9]; exact hb i hi⟩, h11⟩
 
 /-! ### stage 2 as an instance -/
 
@@ -330,6 +544,44 @@ theorem global_publishes_file_value {fs : Bytes → Option Bytes} {enc : Encoder
     ∃ x v, globalName el = some x ∧ t.find x = some (some v) ∧ st.globals.find x = none ∧
       st' = { st with globals := pub1 st.globals x v } := Glob.global_inv hg h hl hfound
 
+/-! ### stage 1 as an instance -/
+
+theorem okInc_not3 {el : Element} (h : okInc el = true) : isGlobal el = false ∧ isExport el = false ∧ isImport el = false := by
+  obtain ⟨line, col, val⟩ := el
+  cases val with
+  | label n => exact ⟨rfl, rfl, rfl⟩
+  | instruction n a => exact ⟨rfl, rfl, rfl⟩
+  | directive name args =>
+    simp only [okInc, Bool.not_eq_true', Bool.or_eq_false_iff, decide_eq_false_iff_not] at h
+    simp only [isGlobal, isExport, isImport, decide_eq_false_iff_not]
+    exact ⟨h.1.1, h.2, h.1.2⟩
+
+theorem elsOk_of_okInc (fs : Bytes → Option Bytes) (path : Bytes) (proj : List Bytes → Bytes → Bytes → Prop) (avail : List Bytes) :
+    ∀ (els : List Element) (seen : List Bytes),
+      (∀ el ∈ els, okInc el = true ∧ ∀ p' d', incTarget fs path el = some (p', d') → ∀ a, proj a p' d') →
+      ElsOk fs path proj avail seen els := by
+  intro els
+  induction els with
+  | nil => intro _ _; trivial
+  | cons el els ih =>
+    intro seen hok
+    have hel := hok el List.mem_cons_self
+    have h3 := okInc_not3 hel.1
+    exact ⟨fun hg => (by rw [h3.1] at hg; cases hg), fun hm => (by rw [h3.2.2] at hm; cases hm),
+      fun p' d' ht => hel.2 p' d' ht _, ih _ (fun x hx => hok x (List.mem_cons_of_mem _ hx))⟩
+
+/-- the side condition of stage 1 (`.include` with file-local names) is an instance of the side condition of stage 3: the
+strong theorems apply to every project covered by `layout_refines_asm_includes_partial` -/
+theorem xferProject_of_local (fs : Bytes → Option Bytes) : ∀ (fuel : Nat) (avail : List Bytes) (path data : Bytes),
+    LocalProject fs fuel path data → XferProject fs fuel avail path data := by
+  intro fuel
+  induction fuel with
+  | zero => intro _ _ _ _; trivial
+  | succ fuel ih =>
+    intro avail path data h els perr hp
+    exact elsOk_of_okInc fs path _ avail els []
+      (fun el hel => ⟨(h els perr hp el hel).1, fun p' d' ht a => ih a p' d' ((h els perr hp el hel).2 p' d' ht)⟩)
+
 /-! ### non-vacuity -/
 
 /-- a decidable form of `ElsOk` / `XferProject` -/
@@ -425,5 +677,34 @@ import aliases (`20 := 10`, `30 := 20`) at the `.import` statements and the publ
 example : Layout.Ref.layout [.addr 16, .const 10 [] 5, .emit 2 [11] [0x13, 0x00], .const 20 [10] 5, .emit 1 [20] [0x05],
         .const 30 [20] 5, .label 31, .emit 1 [30] [0x06], .const 21 [31] 19, .const 11 [21] 19, .emit 2 [11] [0x13, 0x00]] =
       some [(20, 0x13), (21, 0x00), (19, 0x06), (18, 0x05), (16, 0x13), (17, 0x00)] := by rfl
+
+/-- the strong theorem applies to the three-file project: every statement genuine, `E` the layout core's own table -/
+example : ∃ o, run exXFs (bytesOf "m") = .done o ∧
+    ∃ (els : List Element) (p : List Layout.Stmt) (E : Layout.Env) (t : Table) (n : Nat),
+      XFlatS exNum2 exXFs encoder E 0 1 (bytesOf "m") t 2 none els p n ∧ Table.NoDef t := by
+  have hr := exXProject_run
+  cases hrun : run exXFs (bytesOf "m") with
+  | done o =>
+    rw [hrun] at hr
+    simp only [Bool.and_eq_true] at hr
+    obtain ⟨els, _, p, E, t, n, _, _, _, _, _, h3, h4, _⟩ :=
+      layout_refines_asm_scope_strong exNum2_inj exXFs (bytesOf "m") exXMain rfl exXProject_ok o hrun hr.1.1
+    exact ⟨o, rfl, els, p, E, t, n, h4, h3⟩
+  | noMain => rw [hrun] at hr; cases hr
+  | panic => rw [hrun] at hr; cases hr
+  | fuel => rw [hrun] at hr; cases hr
+  | loop => rw [hrun] at hr; cases hr
+
+/-- the auditor's input: a label at the cursor 2^32 (`NoLabelAtTop` fails, `Ref.pass1` is undefined), referenced from another
+region: the run succeeds (`x` = 0xFFFFFFFF, saturated) and the strong theorem still pins the symbol table -/
+def exTopText : Bytes := bytesOf ".addr 0xFFFFFFFF;\n.du8 0;\nx:\n.addr 0;\n.du32 x;\n"
+def exTopFs : Bytes → Option Bytes := fun p => if p = bytesOf "m" then some exTopText else none
+
+set_option maxRecDepth 100000 in
+example : XferProject exTopFs maxDepth [] (bytesOf "m") exTopText ∧
+    (match run exTopFs (bytesOf "m") with
+      | .done o => o.success && o.diags.isEmpty && o.image == [(0, [0xFF, 0xFF, 0xFF, 0xFF]), (0xFFFFFFFF, [0x00])]
+      | _ => false) = true :=
+  ⟨xferProject_of_B _ _ _ _ _ (by decide +kernel), by decide +kernel⟩
 
 end Trion.Asm
